@@ -141,6 +141,9 @@ class Program:
         return [(i, t) for i, t in enumerate(self.lines) if t is not None]
 
 
+import re as _re
+
+_REPR = _re.compile(r"^[A-Za-z_][\w.]*\(.*=")  # dataclass / object repr such as IC10Operand(value=...)
 _PY_SPELLINGS = {"None": "python-None", "True": "python-bool", "False": "python-bool", "nan": "python-float", "inf": "python-float", "-inf": "python-float"}
 
 
@@ -152,7 +155,7 @@ def classify(t: str, prog: Program):
         return _PY_SPELLINGS[t]
     if t.startswith("__register."):
         return "virtual-register"
-    if t.startswith("<") or "object at" in t or "(" in t and not (tok.is_hash(t) or tok.is_str(t)):
+    if t.startswith("<") or "object at" in t or _REPR.match(t):
         return "repr"
     if tok.reg_index(t) is not None:
         return "reg"
@@ -184,6 +187,8 @@ def classify(t: str, prog: Program):
         return "label"
     if t in enums.dotted():
         return "enum"
+    if any(t in enums.positional(k) for k in ("T", "S", "B", "M")):
+        return "bare-enum"
     if tok.is_ident(t):
         return "ident"
     return "garbage"
@@ -196,12 +201,14 @@ def _kind_ok(kind, t, cls, prog):
     if kind == "R":
         return cls in ("reg", "alias-reg")
     if kind in ("V", "I", "O"):
-        return cls in _VALUE_OK
+        # a bare LogicType/SlotType/BatchMethod name standing where a value is expected: whether the game
+        # accepts it is not known to the harness -> recorded by the callers' counters, not judged
+        return cls in _VALUE_OK or cls == "bare-enum"
     if kind == "D":
         # d0-d5/db, an alias, or a reference id (number / register holding one)
         return cls in ("dev", "alias-dev") or cls in ("reg", "num", "hex", "alias-reg", "define")
     if kind in ("T", "S", "B", "M"):
-        if cls == "ident":
+        if cls in ("ident", "bare-enum"):
             return t in enums.positional(kind)
         return cls in ("num", "hex", "reg", "alias-reg", "define", "enum")
     if kind == "J":
